@@ -390,6 +390,65 @@ def gen_body(rng):
     return bytes(x for x in out if x != 0)
 
 
+# ------------------------------------------------------------------------------------------------ doubles, value level
+import math
+
+DBL_MAX = 1.7976931348623157e308
+
+
+def gen_doubles(rng, n):
+    """doubles over the whole normal range: m * 10^k for k in -8..307, the fixed/exponent notation boundary
+    (decades 1e21..1e23), exponents that are multiples of ten, DBL_MAX; no subnormals, no inf/nan"""
+    out = []
+    for k in range(-8, 308):
+        for m in (1.0, 9.5, rng.range(1000, 9999) / 1000.0):
+            try:
+                x = float("%re%d" % (m, k))
+            except OverflowError:
+                continue
+            if x <= DBL_MAX:
+                out.append(x)
+    for k in range(10, 301, 10):
+        out += [float("1e%d" % k), float("7.25e%d" % k), float("1e%d" % (k + 1)), float("1e%d" % (k - 1))]
+    for base in (1e21, 5e21, 9.999e21, 1e22, 1.0000001e22, 5e22, 1e23, 9.9999999999e22, 2.0 ** 63, 2.0 ** 64, 2.0 ** 70, 2.0 ** 73, 2.0 ** 74):
+        x = base
+        out.append(x)
+        for _ in range(3):
+            x = math.nextafter(x, math.inf); out.append(x)
+        x = base
+        for _ in range(3):
+            x = math.nextafter(x, 0.0); out.append(x)
+    out += [DBL_MAX, math.nextafter(DBL_MAX, 0.0), 1e308, 1.5, 0.1, 0.3, 123456.789, 0.00000001, 0.000000004, 0.000000006,
+            99999999.99999999, 4503599627370496.5, 9007199254740993.0, 0.0, 2.2250738585072014e-308, 1e-300]
+    while len(out) < n:
+        e = rng.range(-30, 307)
+        out.append(float("%d.%015de%d" % (rng.range(1, 9), rng.below(10 ** 15), e)))
+    out = [x for x in out if x == x and abs(x) <= DBL_MAX]
+    return out + [-x for x in out]
+
+
+def check_printed_double(x, text):
+    """text: bytes of the printed array [x]. Returns None or the reason it does not denote x
+    (fixed notation: rounded to eight fraction digits and nothing else; exponent notation: exact round trip)"""
+    try:
+        v = json.loads(text.decode("ascii"), strict=True)
+    except (ValueError, UnicodeDecodeError) as e:
+        return "not valid JSON (%s)" % str(e)[:60]
+    if not (isinstance(v, list) and len(v) == 1 and isinstance(v[0], (int, float)) and not isinstance(v[0], bool)):
+        return "does not denote an array of one number"
+    num = text.strip(b"[] \n\t\r")
+    try:
+        y = float(v[0])
+    except OverflowError:
+        return "denotes a number beyond the double range"
+    if b"e" in num or b"E" in num:
+        if y != x:
+            return "exponent notation does not round-trip: denotes %r" % y
+    elif not abs(y - x) <= 0.5e-8 + math.ulp(x):
+        return "fixed notation is off by more than eight fraction digits: denotes %r" % y
+    return None
+
+
 # ------------------------------------------------------------------------------------------------ the check
 def nums_tables(impl, docs):
     """oracle inputs: iwstrtod at every possible number start, from the implementation"""
@@ -679,6 +738,34 @@ def check(run):
                 viol(lines[i], out_i[i], "the library rejects its own output %r" % txt[:120], "print-self")
             elif not same_masked(o2[1:], t):
                 viol(lines[i], out_i[i], "library re-parse of %r differs from the printed tree" % txt[:120], "print-self")
+
+    # ---------------- ORACLE 5: printed doubles denote the printed value (independent of the model: doubles are oracle inputs there)
+    dl, dm = [], []
+    for j, x in enumerate(gen_doubles(rng, 1200 if tier == "quick" else 20000)):
+        pf = 0 if j % 4 else rng.choice(PFS)
+        dl.append("dbl %d %s" % (pf, struct.pack(">d", x).hex())); dm.append(x)
+    rc, dout, derr = vlib.run_lines(impl, "\n".join(dl) + "\n")
+    if rc != 0:
+        run.broken.append("harness failed on doubles: rc=%d %s" % (rc, derr[-300:]))
+    for l, x, o in zip(dl, dm, dout):
+        run.case(l, nontrivial=True)
+        run.dist("double")
+        f = o.split()
+        if len(f) < 4 or f[0] != "ok":
+            viol(l, o, "double %r could not be printed (%s)" % (x, o[:60]), "dbl-print")
+            continue
+        for which, h in (("jbn_as_json", f[1]), ("jbl_as_json", f[2])):
+            why = check_printed_double(x, bytes.fromhex(h))
+            if why:
+                viol(l, o, "%s prints %r as %r: %s" % (which, x, bytes.fromhex(h), why), "dbl-value")
+                break
+        else:
+            if f[3] != "ok" or len(f) != 7 or f[5][0] not in "di":
+                viol(l, o, "the library does not read back its own text %r for %r" % (bytes.fromhex(f[1]), x), "dbl-self")
+            else:
+                y = bits_to_float(f[5][1:17]) if f[5][0] == "d" else float(int(f[5][1:]))
+                if not abs(y - x) <= 0.5e-8 + 1e-9 * abs(x):          # iwstrtod accumulates rounding errors: gross errors only
+                    viol(l, o, "the library reads its own text %r back as %r instead of %r" % (bytes.fromhex(f[1]), y, x), "dbl-self")
 
     # ---------------- ORACLE 4: utf8 encoder against Python's
     for i, m in enumerate(meta):
